@@ -38,8 +38,33 @@ pub trait Subj {
     fn get(&self) -> Obs;
 }
 
+thread_local! {
+    /// how the scripted input is handed to the stream under test: 0 = concrete type behind an
+    /// Rc<RefCell> Reference (default), 1 = raw-pointer Reference, 2 = trait-object input type
+    /// `Reference<dyn Getter>`, 3 = Arc<Mutex> Reference, 4 = Arc<RwLock> Reference
+    pub static WIRING: std::cell::Cell<u8> = std::cell::Cell::new(0);
+}
+pub const WIRING_NAMES: [&str; 6] = ["Rc<RefCell> (concrete input type)", "raw pointer", "Reference<dyn Getter>", "Arc<Mutex>", "Arc<RwLock>", "Rc<RefCell>, and the command followed from a constant command getter"];
+enum Holder<I: Clone> {
+    Rc(Rc<RefCell<Scr<I>>>),
+    #[cfg(feature = "std")]
+    Mx(std::sync::Arc<std::sync::Mutex<Scr<I>>>),
+    #[cfg(feature = "std")]
+    Rw(std::sync::Arc<std::sync::RwLock<Scr<I>>>),
+}
+impl<I: Clone> Holder<I> {
+    fn set_next(&self, o: Output<I, E>) {
+        match self {
+            Holder::Rc(r) => r.borrow_mut().next = o,
+            #[cfg(feature = "std")]
+            Holder::Mx(m) => m.lock().unwrap().next = o,
+            #[cfg(feature = "std")]
+            Holder::Rw(r) => r.write().unwrap().next = o,
+        }
+    }
+}
 struct Sub<I: Clone, S> {
-    inp: Rc<RefCell<Scr<I>>>,
+    inp: Holder<I>,
     s: S,
     mk: fn(f32) -> I,
     g: fn(&S) -> Obs,
@@ -47,14 +72,14 @@ struct Sub<I: Clone, S> {
 }
 impl<I: Clone, S> Subj for Sub<I, S> {
     fn feed(&mut self, ev: &Ev, t: i64) {
-        self.inp.borrow_mut().next = match ev {
+        self.inp.set_next(match ev {
             Ev::P(i) => Ok(Some(Datum::new(Time(t), (self.mk)(VALS[*i])))),
             Ev::N => Ok(None),
             Ev::Er(c) => Err(err_val(*c)),
-        };
+        });
     }
     fn poison(&mut self) {
-        self.inp.borrow_mut().next = Ok(Some(Datum::new(Time(-777), (self.mk)(12345.0))));
+        self.inp.set_next(Ok(Some(Datum::new(Time(-777), (self.mk)(12345.0)))));
     }
     fn update(&mut self) -> u32 {
         obs_unit(&(self.u)(&mut self.s))
@@ -103,18 +128,76 @@ fn kvals() -> PositionDerivativeDependentPIDKValues {
     )
 }
 
+/// CommandPID; under wiring 5 it additionally *follows* a command getter that keeps returning the
+/// very command it was constructed with (every update then re-sets the same command, which by
+/// C11 changes nothing)
+fn cpid<G: Getter<State, E> + ?Sized>(r: Reference<G>, c: Command) -> CommandPID<G, E> {
+    let mut p = CommandPID::new(r, c, kvals());
+    if WIRING.with(|w| w.get()) == 5 {
+        let g = rc(Scr::<Command>::new(Ok(Some(Datum::new(Time(0), c)))));
+        p.follow(dyn_getter(&g));
+    }
+    p
+}
 pub fn make(kind: usize) -> Box<dyn Subj> {
     macro_rules! sub {
-        ($I:ty, $mk:expr, $ctor:expr) => {{
+        // streams whose constructor does not accept an unsized input type: no trait-object wiring
+        (nodyn $I:ty, $mk:expr, $ctor:expr) => {{
+            let w = WIRING.with(|w| w.get());
+            if w == 2 {
+                WIRING.with(|x| x.set(0));
+            }
+            let b = sub!(@go false, $I, $mk, $ctor);
+            WIRING.with(|x| x.set(w));
+            b
+        }};
+        ($I:ty, $mk:expr, $ctor:expr) => {
+            sub!(@go true, $I, $mk, $ctor)
+        };
+        (@go $dynok:tt, $I:ty, $mk:expr, $ctor:expr) => {{
+            macro_rules! fin {
+                ($holder:expr, $reference:expr) => {{
+                    let s = $ctor($reference);
+                    let b: Box<dyn Subj> = Box::new(Sub { inp: $holder, s, mk: $mk, g: |s| obs(&s.get()), u: |s| s.update() });
+                    b
+                }};
+            }
+            let wiring = WIRING.with(|w| w.get());
+            match wiring {
+                1 => {
+                    let inp = rc(Scr::<$I>::new(Ok(None)));
+                    let r: Reference<Scr<$I>> = unsafe { Reference::from_ptr(inp.as_ptr()) };
+                    fin!(Holder::Rc(inp), r)
+                }
+                2 => sub!(@dyn $dynok, $I, $mk, $ctor),
+                #[cfg(feature = "std")]
+                3 => {
+                    let a = std::sync::Arc::new(std::sync::Mutex::new(Scr::<$I>::new(Ok(None))));
+                    let r: Reference<Scr<$I>> = Reference::from_arc_mutex(a.clone());
+                    fin!(Holder::Mx(a), r)
+                }
+                #[cfg(feature = "std")]
+                4 => {
+                    let a = std::sync::Arc::new(std::sync::RwLock::new(Scr::<$I>::new(Ok(None))));
+                    let r: Reference<Scr<$I>> = Reference::from_arc_rw_lock(a.clone());
+                    fin!(Holder::Rw(a), r)
+                }
+                _ => {
+                    let inp = rc(Scr::<$I>::new(Ok(None)));
+                    let r = rf(&inp);
+                    fin!(Holder::Rc(inp), r)
+                }
+            }
+        }};
+        (@dyn true, $I:ty, $mk:expr, $ctor:expr) => {{
             let inp = rc(Scr::<$I>::new(Ok(None)));
-            let s = $ctor(rf(&inp));
-            Box::new(Sub {
-                inp,
-                s,
-                mk: $mk,
-                g: |s| obs(&s.get()),
-                u: |s| s.update(),
-            })
+            let r: Reference<dyn Getter<$I, E>> = dyn_getter(&inp);
+            let s = $ctor(r);
+            let b: Box<dyn Subj> = Box::new(Sub { inp: Holder::Rc(inp), s, mk: $mk, g: |s| obs(&s.get()), u: |s| s.update() });
+            b
+        }};
+        (@dyn false, $I:ty, $mk:expr, $ctor:expr) => {{
+            unreachable!()
         }};
     }
     fn st(v: f32) -> State {
@@ -122,9 +205,9 @@ pub fn make(kind: usize) -> Box<dyn Subj> {
     }
     match kind {
         0 => sub!(f32, |v| v, |r| PIDControllerStream::new(r, 5.0, PIDKValues::new(2.0, 0.5, 0.25))),
-        1 => sub!(State, st, |r| CommandPID::new(r, Command::Position(3.0), kvals())),
-        2 => sub!(State, st, |r| CommandPID::new(r, Command::Velocity(3.0), kvals())),
-        3 => sub!(State, st, |r| CommandPID::new(r, Command::Acceleration(3.0), kvals())),
+        1 => sub!(State, st, |r| cpid(r, Command::Position(3.0))),
+        2 => sub!(State, st, |r| cpid(r, Command::Velocity(3.0))),
+        3 => sub!(State, st, |r| cpid(r, Command::Acceleration(3.0))),
         4 => sub!(f32, |v| v, |r| EWMAStream::new(r, 0.5)),
         5 => sub!(Quantity, |v| Quantity::new(v, MILLIMETER), |r| EWMAStream::new(r, 0.5)),
         6 => sub!(f32, |v| v, |r| MovingAverageStream::new(r, Time(5 * S / 2))),
@@ -134,7 +217,7 @@ pub fn make(kind: usize) -> Box<dyn Subj> {
         10 => sub!(Quantity, |v| Quantity::new(v, MILLIMETER_PER_SECOND_SQUARED), |r| AccelerationToState::new(r)),
         11 => sub!(Quantity, |v| Quantity::new(v, MILLIMETER_PER_SECOND), |r| VelocityToState::new(r)),
         12 => sub!(Quantity, |v| Quantity::new(v, MILLIMETER), |r| PositionToState::new(r)),
-        13 => sub!(f32, |v| v, |r| FloatToQuantity::new(MILLIMETER_PER_SECOND, r)),
+        13 => sub!(nodyn f32, |v| v, |r| FloatToQuantity::new(MILLIMETER_PER_SECOND, r)),
         14 => sub!(Quantity, |v| Quantity::new(v, MILLIMETER), |r| QuantityToFloat::new(r)),
         15 => sub!(f32, |v| v, |r| MovingAverageStream::new(r, Time(1000 * S))),
         16 => sub!(Quantity, |v| Quantity::new(v, MILLIMETER), |r| MovingAverageStream::new(r, Time(1000 * S))),
@@ -161,6 +244,52 @@ pub fn run_full(kind: usize, h: &[Ev], times: &[i64], impure: &mut bool) -> Vec<
     }
     out
 }
+/// The history oracles again with the scripted input handed over in other ways than the harness'
+/// default (a concrete getter type behind an Rc<RefCell> Reference): a raw-pointer Reference, the
+/// trait-object input type `Reference<dyn Getter>`, Arc<Mutex> and Arc<RwLock> References. A
+/// stream sees its input only through `get()`; how the input is held must not matter.
+pub fn wiring_engine(name: &str, kinds: &[usize], depth: usize, budget: Budget) -> Eng {
+    let nw = if cfg!(feature = "std") { 4 } else { 2 };
+    let mut e = Eng::new(
+        name,
+        "all histories of `depth` events over {P(1), P(-2), N, E1, FromNone} with the scripted input wired in through a raw-pointer Reference, through the trait-object input type Reference<dyn Getter>, and (std builds) through Arc<Mutex> and Arc<RwLock> References, instead of the default concrete getter behind Rc<RefCell> (command PIDs also with their command followed from a getter that keeps returning it); the whole (update result, get) trace must be bit-identical to the trace under the default wiring, and the oracles of c05-seqs (no stale error, reset == fresh stream, deletion of ignored absents, get purity) must hold - a stream may depend on what its input returns, never on how the input is held; non-trivial as in c05-seqs",
+        &format!("depth {} => 5^{} histories x {} wirings x {} streams", depth, depth, nw, kinds.len()),
+    );
+    let mut ws: Vec<u8> = (1..=nw as u8).collect();
+    ws.push(5);
+    for w in ws {
+        for &kind in kinds {
+            if w == 5 && !(1..=3).contains(&kind) {
+                continue;
+            }
+            par_seqs(&mut e, 5, depth, budget, |seq, e| {
+                let h: Vec<Ev> = seq.iter().map(|&s| SYMS[s]).collect();
+                let times: Vec<i64> = (0..h.len()).map(|k| (k as i64 + 1) * S).collect();
+                let before = e.viol.len();
+                // differential: the same history under the default wiring must give the same trace
+                let mut imp = false;
+                let base = guard(|| run_full(kind, &h, &times, &mut imp));
+                WIRING.with(|x| x.set(w));
+                let other = guard(|| run_full(kind, &h, &times, &mut imp));
+                e.checks += 1;
+                if base != other {
+                    e.violation(&format!("stateful:{}:depends-on-input-wiring", KIND_NAMES[kind]), h.len(), || {
+                        format!("{} fed [{}]: with the input wired through {} the (update, get) trace is {:?} but through {} it is {:?}", KIND_NAMES[kind], hist_name(&h), WIRING_NAMES[w as usize], other.as_ref().map(|v| v.iter().map(|x| (x.0, x.1.show())).collect::<Vec<_>>()), WIRING_NAMES[0], base.as_ref().map(|v| v.iter().map(|x| (x.0, x.1.show())).collect::<Vec<_>>()))
+                    });
+                }
+                let a = check_history(kind, &h, e);
+                WIRING.with(|x| x.set(0));
+                if e.viol.len() > before {
+                    // tag the wiring into the newest witness
+                    e.notes.push(format!("a violation first appeared with the input wired through {}", WIRING_NAMES[w as usize]));
+                }
+                a
+            });
+        }
+    }
+    e
+}
+
 /// Two streams of the same type alive at once, fed *different* histories in lockstep (A step, B
 /// step, A step, ...; B's clock runs 0.25 s ahead): each must behave exactly as it does alone.
 /// State that has moved from the object into something shared (a static cache, a module-level
@@ -547,6 +676,8 @@ pub fn run(ctx: &Ctx) -> Vec<Eng> {
         }
     }
     engines.push(e2c);
+    let all_kinds: Vec<usize> = (0..17).collect();
+    engines.push(wiring_engine("c05-input-wirings", &all_kinds, if ctx.thorough { 6 } else { 5 }, budget));
     let fdepth = if ctx.thorough { 6 } else { 4 };
     let mut e3 = Eng::new(
         "c05-freeze",
